@@ -111,7 +111,7 @@ def run(rep, tier, seed):
     names = ["v", "x", "A", "sup", "i", "U", "long_identifier_name_0123456789", "_v", "v$1"]
     cases = []
     for S in subsets:
-        reps = 3 if quick else 6
+        reps = 3 if quick else 40
         for _ in range(reps):
             name = rng.choice(names)
             noise = rng.choice(["", "", "// c\n", "/* c */ "])
